@@ -33,6 +33,13 @@ def gen(rng, k):
     if kind == "fine":   # fine-meshed: lattice vectors only a few tolerances long, re-matching may re-index the same peaks
         a = np.array([rng.uniform(6, 10), rng.uniform(-2, 2)])
         b = np.array([rng.uniform(-2, 2), rng.uniform(6, 10)])
+    near_square = kind == "lattice_noise" and (k // 7) % 2 == 1
+    if near_square:   # two lattice vectors of nearly the same length, a length limit between them (below)
+        l0 = float(rng.uniform(24, 32))
+        a = np.array([l0 + float(rng.uniform(0.4, 1.2)), rng.uniform(-1, 1)])
+        b = np.array([rng.uniform(-1, 1), l0])
+        if rng.random() < 0.5:
+            a, b = b, a
     zero = rng.uniform(60, 80, 2)
     pts = [zero.copy()]
     if kind == "clean":
@@ -79,6 +86,13 @@ def gen(rng, k):
                   "max_delta": float("inf"), "min_points": 10})
     if k % 3 == 0 and kind != "random":
         p["cand"] = [(a * rng.uniform(0.97, 1.03)).tolist(), (b * rng.uniform(0.97, 1.03)).tolist()]
+    if near_square:
+        la, lb = float(np.linalg.norm(a)), float(np.linalg.norm(b))
+        mid = 0.5 * (la + lb) + float(rng.uniform(-0.15, 0.15))
+        p.update({"tolerance": 3.0, "min_match": 3, "min_angle": float(np.pi / 10), "min_points": 10})
+        p.update({"min_delta": 0.0, "max_delta": mid} if rng.random() < 0.5 else {"min_delta": mid, "max_delta": float("inf")})
+        if rng.random() < 0.5:      # rough candidates, inside the tolerance
+            p["cand"] = [(a + rng.uniform(-1.5, 1.5, 2)).tolist(), (b + rng.uniform(-1.5, 1.5, 2)).tolist()]
     if kind == "clean":
         p.update({"min_match": 3, "tolerance": 2.0, "min_delta": 0.0, "max_delta": float("inf"), "min_angle": float(np.pi / 10)})
         if k % 2:
